@@ -397,6 +397,26 @@ def s_format(ex, st, s, args, kwargs, node):
     raise Unsupported("str.format")
 
 
+def str_count(ex, s, ch):
+    used(ex, "str.count(<literal>) abstract: a non-negative integer per (string, literal)")
+    if isinstance(s, str) and isinstance(ch, str):
+        return s.count(ch)
+    if not isinstance(ch, str):
+        raise Unsupported("str.count of a symbolic needle")
+    f = ex.ctx.uf("count_%s" % "".join(c if c.isalnum() else "_%02x" % ord(c) for c in ch), S, I)
+    ex.ctx.count_funs = getattr(ex.ctx, "count_funs", {})
+    ex.ctx.count_funs[f.name()] = f
+    return f(to_z3(s))
+
+
+@sm("count")
+def s_count(ex, st, s, args, kwargs, node):
+    r = str_count(ex, s, st.get(args[0]))
+    if is_z3(r):
+        st.assume(r >= 0)
+    return r
+
+
 @sm("isdigit")
 def s_isdigit(ex, st, s, args, kwargs, node):
     if isinstance(s, str):
